@@ -54,6 +54,7 @@ func (s *sessionMetadatasState) mergeSessions(sessions []*api.SessionMetadatas) 
 func (s *sessionMetadatasState) dump(event *api.StateBroadcastEvent) {
 	sessions := s.All()
 	for _, session := range sessions {
+		session := session // the event keeps a pointer to each entry
 		event.SessionMetadatas = append(event.SessionMetadatas, &session)
 	}
 }
